@@ -359,7 +359,6 @@ Proof.
 Qed.
 
 Definition rows_app (s i : Z) (k : nat) : list (Z * msg) := gen (fun s i => (s, wapp cfgA s i)) s i k.
-Definition rows_pd (s i : Z) (k : nat) : list (Z * msg) := gen (fun s i => (s, wpd cfgA s i)) s i k.
 Definition frames_app (s i : Z) (k : nat) : list msg := gen (fun s i => wapp cfgA s i) s i k.
 Definition frames_pd (s i : Z) (k : nat) : list msg := gen (fun s i => wpd cfgA s i) s i k.
 Definition texts (i : Z) (k : nat) : list str := gen (fun _ i => payload i) i i k.
@@ -379,28 +378,24 @@ Proof. intros. apply gen_Forall. intros j Hj. cbn. lia. Qed.
 Lemma prepend_nil : forall A (r : res A), prepend [] r = r.
 Proof. intros. destruct r. reflexivity. Qed.
 
-(* --- A, servicing a ResendRequest: the loop over journaled application messages *)
-Lemma replay_apps : forall k s i b gfe ni lt si pre ins rest,
-  keys_lt s pre -> gfe <= s -> 0 < s -> s + Z.of_nat k <= I64MAX ->
-  replay_loop cfgA (rows_app s i k ++ rest) s gfe (W 10 1 ni b 0 lt true (s - 1) si pre ins)
+(* --- A, servicing a ResendRequest: the loop over journaled application messages (the journal, the
+       counters and the state are not touched: retransmissions are written, not journaled) *)
+Lemma replay_apps : forall k s i gfe ni no lt so si rows ins rest,
+  gfe <= s -> 0 < s -> s + Z.of_nat k <= I64MAX ->
+  replay_loop cfgA (rows_app s i k ++ rest) s gfe (W 10 1 ni no 0 lt true so si rows ins)
   = prepend (map Wire (frames_pd s i k))
-      (replay_loop cfgA rest (s + Z.of_nat k) gfe
-         (W 10 1 ni b 0 lt true (s + Z.of_nat k - 1) si (pre ++ rows_pd s i k) ins)).
+      (replay_loop cfgA rest (s + Z.of_nat k) gfe (W 10 1 ni no 0 lt true so si rows ins)).
 Proof.
-  induction k as [|k IH]; intros * K G B1 B2.
-  - cbn. rewrite prepend_nil, app_nil_r. replace (s + 0) with s by lia. reflexivity.
-  - unfold rows_app, rows_pd, frames_pd. cbn [gen app map].
-    fold (rows_app (s + 1) (i + 1) k). fold (rows_pd (s + 1) (i + 1) k). fold (frames_pd (s + 1) (i + 1) k).
+  induction k as [|k IH]; intros * G B1 B2.
+  - cbn. rewrite prepend_nil. replace (s + 0) with s by lia. reflexivity.
+  - unfold rows_app, frames_pd. cbn [gen app map].
+    fold (rows_app (s + 1) (i + 1) k). fold (frames_pd (s + 1) (i + 1) k).
     remember (rows_app (s + 1) (i + 1) k ++ rest) as tl eqn:Etl.
-    pose proof (has_key_lt _ _ K) as HK. unfold W.
-    timeout 100 (ev_with ltac:(rewrite ?HK)).
+    unfold W.
+    timeout 100 (ev_with idtac).
     subst tl.
-    assert (P1 : keys_lt (s + 1) (pre ++ [(s, wpd cfgA s i)])).
-    { apply keys_lt_app; [eapply keys_lt_weaken; [exact K|lia]|]. repeat constructor. cbn. lia. }
-    specialize (IH (s + 1) (i + 1) b gfe ni lt si _ ins rest P1 ltac:(lia) ltac:(lia) ltac:(lia)).
-    replace (s + 1 - 1) with s in IH by lia.
+    specialize (IH (s + 1) (i + 1) gfe ni no lt so si rows ins rest ltac:(lia) ltac:(lia) ltac:(lia)).
     replace (s + 1 + Z.of_nat k) with (s + Z.of_nat (S k)) in IH by lia.
-    rewrite <- app_assoc in IH. cbn [app] in IH.
     lazymatch type of IH with
     | _ = ?rhs =>
         match goal with
@@ -479,41 +474,28 @@ Lemma ge_gen : forall (g : Z -> Z -> msg) k s i b, b <= s -> Forall (fun r : Z *
 Proof. intros. apply gen_Forall. intros j Hj. cbn. lia. Qed.
 
 (* --- A, ACTIVE: the ResendRequest(b, 0) numbered as expected, over k journaled application messages
-       b .. L-1 and the Logon L sent on the new transport *)
+       b .. L-1 and the Logon L sent on the new transport: k retransmissions and one gap fill are written,
+       the journal and next_num_out stay as they are *)
 Lemma recv_resend_request : forall ni lt si pre ins b i k L,
-  all_lt ni ins -> keys_lt b pre -> 0 < ni < I64MAX -> 0 < b -> L = b + Z.of_nat k -> L < I64MAX ->
+  all_lt ni ins -> keys_lt b pre -> 0 < ni < I64MAX -> 0 < b -> L = b + Z.of_nat k -> L < I64MAX -> si = ni - 1 ->
   process_message cfgA (recv_of cfgA (wrr cfgB ni b)) NOW0
     (W 17 1 ni (L + 1) 0 lt true L si (pre ++ rows_app b i k ++ [(L, wlogon cfgA L)]) ins)
   = mkR (inl tt)
-        (W 17 1 (ni + 1) (L + 1) 0 NOW0 true L ni (pre ++ rows_pd b i k ++ [(L, wgf cfgA L (L + 1))]) (ins ++ [ni]))
+        (W 17 1 (ni + 1) (L + 1) 0 NOW0 true L ni (pre ++ rows_app b i k ++ [(L, wlogon cfgA L)]) (ins ++ [ni]))
         ([State 10] ++ map Wire (frames_pd b i k) ++ [Wire (wgf cfgA L (L + 1)); State 17]).
 Proof.
-  intros * K1 K2 B1 B2 EL B3. unfold W, process_message, validate_integrity.
+  intros * K1 K2 B1 B2 EL B3 ->. unfold W, process_message, validate_integrity.
   pose proof (existsb_lt _ _ K1) as HK1.
   timeout 100 (ev_with ltac:(rewrite ?HK1)).
   match goal with |- context [sort_rows (filter ?f ?l)] =>
     replace (sort_rows (filter f l)) with (rows_app b i k ++ [(L, wlogon cfgA L)])
       by (symmetry; apply recover_range; [exact K2 | lia | lia]) end.
-  match goal with |- context [filter ?f (pre ++ ?post)] =>
-    replace (filter f (pre ++ post)) with pre end.
-  2:{ symmetry. apply truncate_at. exact K2. apply Forall_app. split. apply ge_gen. lia. repeat constructor. cbn. lia. }
-  rewrite (filter_ins_lt _ _ K1) by lia.
   match goal with |- context [replay_loop ?c ?l ?a ?g ?w] =>
     replace (replay_loop c l a g w)
       with (prepend (map Wire (frames_pd b i k))
-              (replay_loop cfgA [(L, wlogon cfgA L)] (b + Z.of_nat k) b
-                 (W 10 1 ni b 0 lt true (b + Z.of_nat k - 1) (ni - 1) (pre ++ rows_pd b i k) ins)))
-      by (symmetry; apply replay_apps; [exact K2 | lia | lia | unfold I64MAX; lia]) end.
-  unfold W.
+              (replay_loop cfgA [(L, wlogon cfgA L)] (b + Z.of_nat k) b w))
+      by (symmetry; apply replay_apps; [lia | lia | unfold I64MAX; lia]) end.
   timeout 100 (ev_with ltac:(rewrite ?HK1)).
-  match goal with |- context [has_key ?x (pre ++ ?l)] =>
-    replace (has_key x (pre ++ l)) with false
-      by (symmetry; apply has_key_lt; apply keys_lt_app; [eapply keys_lt_weaken; [exact K2|lia]|apply keys_lt_gen; lia]) end.
-  timeout 100 (ev_with ltac:(rewrite ?(filter_ins_lt _ _ K1) by lia; rewrite ?HK1)).
-  match goal with |- context [filter ?f ((pre ++ ?l) ++ ?m)] =>
-    replace (filter f ((pre ++ l) ++ m)) with ((pre ++ l) ++ m)
-      by (symmetry; apply keep_all; repeat apply keys_lt_app;
-          [eapply keys_lt_weaken; [exact K2|lia] | apply keys_lt_gen; lia | repeat constructor; cbn; lia]) end.
   subst L. fin.
 Qed.
 
@@ -527,7 +509,7 @@ Proof. reflexivity. Qed.
 (* Net.v operations are opened; the library calls on a world stay folded for the step lemmas *)
 Ltac nopen :=
   cbn -[drain run process_message send_msg disconnect recv_of wapp wlogon wrr wpd wgf
-        rows_app rows_pd frames_app frames_pd texts nums Z.add Z.sub Z.of_nat gen payload app_msg logon_msg].
+        rows_app frames_app frames_pd texts nums Z.add Z.sub Z.of_nat gen payload app_msg logon_msg].
 
 Definition net_up : net :=
   mkNet (W 17 1 2 2 0 NOW0 true 1 1 [(1, wlogon cfgA 1)] [1])
@@ -722,7 +704,7 @@ Definition net_final (d k : nat) : net :=
   let n := Z.of_nat (d + S k) in
   let b := 2 + Z.of_nat d in
   mkNet (W 17 1 4 (3 + n) 0 NOW0 true (2 + n) 3
-           ((LA1 :: rows_app 2 1 d) ++ rows_pd b (1 + Z.of_nat d) (S k) ++ [(2 + n, wgf cfgA (2 + n) (3 + n))]) [1; 2; 3])
+           ((LA1 :: rows_app 2 1 d) ++ rows_app b (1 + Z.of_nat d) (S k) ++ [(2 + n, wlogon cfgA (2 + n))]) [1; 2; 3])
         (W 17 2 (3 + n) 4 0 NOW0 true 3 (2 + n) [LB1; (2, wlogon cfgB 2); (3, wrr cfgB 3 b)]
            (((1 :: nums 2 d) ++ nums b (S k)) ++ [2 + n]))
         [] [] [] (map Some (texts 1 d) ++ map Some (texts (1 + Z.of_nat d) (S k))) (texts 1 (d + S k)) [] (1 + n).
@@ -755,7 +737,7 @@ Proof.
   rewrite (recv_resend_request (2 + 1) NOW0 2 (LA1 :: rows_app 2 1 d) [1; 2] b (1 + Z.of_nat d) (S k) (2 + n));
     [ | repeat constructor; lia
       | constructor; [unfold LA1; cbn [fst]; unfold b; lia | apply keys_lt_gen; unfold b; lia]
-      | unfold I64MAX; lia | unfold b; lia | unfold b; lia | unfold I64MAX in *; lia ].
+      | unfold I64MAX; lia | unfold b; lia | unfold b; lia | unfold I64MAX in *; lia | lia ].
   nopen. refold. rewrite wires_app, apps_app, wires_map_wire, apps_map_wire. nopen.
   (* B: the k + 1 retransmissions *)
   change (S (k + S f)) with (S k + S f)%nat.
@@ -847,7 +829,7 @@ Proof.
     rewrite recovery_some by assumption. apply final_recovered.
 Qed.
 
-(* ------------------------------------------------------------------ the known-finding class, and the witnesses *)
+(* ------------------------------------------------------------------ resend replies in flight, and the former witnesses *)
 
 (* a reply to a ResendRequest: a retransmission (PossDupFlag = Y) or a SequenceReset-GapFill *)
 Definition is_reply (m : msg) : bool :=
@@ -859,7 +841,7 @@ Definition is_reply (m : msg) : bool :=
             end
   end.
 
-(* class predicate C07-break-loses-resend-reply, on the state in which the link breaks *)
+(* the former known-finding class C07-break-loses-resend-reply (before the D12 repair), on the state in which the link breaks *)
 Definition reply_in_flight (n : net) : bool := existsb is_reply (ab n ++ ba n).
 
 (* the schedules of the proved family are outside the class *)
@@ -884,29 +866,29 @@ Proof.
   - pose proof (single_break (n - k) k fuel) as H. rewrite E in H. apply H; assumption.
 Qed.
 
-(* D13: the replay of the lost message is lost too; the second ResendRequest aborts on the journaled copy *)
+(* D13, repaired: the replay of the lost message is lost too (a reply is in flight at the second break); the
+   second ResendRequest is served from the untouched journal *)
 Definition sched_double_break : list action :=
   [AReconnect; ADeliver SB; ADeliver SA; ASend SA; ABreak;
    AReconnect; ADeliver SB; ADeliver SA; ADeliver SA; ABreak].
 
-Lemma double_break_refuted :
+Lemma double_break_recovers :
   let before := run net0 (firstn 9 sched_double_break) in
   let n := settle 80 (run net0 sched_double_break) in
   reply_in_flight before = true
-  /\ sa n = [payload 1] /\ gb n = [] /\ quiescent n = true /\ holds n = false
-  /\ st (wa n) = ST_HANDLING /\ st (wb n) = ST_AWAITING /\ nout (wa n) = 2 /\ nin (wb n) = 2.
+  /\ sa n = [payload 1] /\ gb n = [Some (payload 1)] /\ quiescent n = true /\ holds n = true
+  /\ st (wa n) = ST_ACTIVE /\ st (wb n) = ST_ACTIVE /\ nout (wa n) = 5 /\ nin (wb n) = 5.
 Proof. vm_compute. repeat split. Qed.
 
-(* a gap fill is lost, the journaled gap fill later covers the message behind it: both ends ACTIVE with
-   matching numbers, the accepted message is never delivered *)
-Definition sched_silent_loss : list action :=
+(* formerly the silent loss: a gap fill is lost, then an application message is lost behind it *)
+Definition sched_gap_fill_lost : list action :=
   [AReconnect; ABreak; AReconnect; ADeliver SB; ADeliver SA; ADeliver SA; ASend SA; ABreak].
 
-Lemma silent_loss_refuted :
-  let before := run net0 (firstn 7 sched_silent_loss) in
-  let n := settle 80 (run net0 sched_silent_loss) in
+Lemma gap_fill_lost_recovers :
+  let before := run net0 (firstn 7 sched_gap_fill_lost) in
+  let n := settle 80 (run net0 sched_gap_fill_lost) in
   reply_in_flight before = true
-  /\ sa n = [payload 1] /\ gb n = [] /\ quiescent n = true /\ holds n = false
+  /\ sa n = [payload 1] /\ gb n = [Some (payload 1)] /\ quiescent n = true /\ holds n = true
   /\ st (wa n) = ST_ACTIVE /\ st (wb n) = ST_ACTIVE
   /\ nin (wa n) = nout (wb n) /\ nin (wb n) = nout (wa n).
 Proof. vm_compute. repeat split. Qed.
@@ -931,7 +913,6 @@ Proof. vm_compute. reflexivity. Qed.
    the proof scripts are identical. *)
 
 Definition rows_app_m (s i : Z) (k : nat) : list (Z * msg) := gen (fun s i => (s, wapp cfgB s i)) s i k.
-Definition rows_pd_m (s i : Z) (k : nat) : list (Z * msg) := gen (fun s i => (s, wpd cfgB s i)) s i k.
 Definition frames_app_m (s i : Z) (k : nat) : list msg := gen (fun s i => wapp cfgB s i) s i k.
 Definition frames_pd_m (s i : Z) (k : nat) : list msg := gen (fun s i => wpd cfgB s i) s i k.
 
@@ -976,27 +957,22 @@ Proof.
   fin.
 Qed.
 
-Lemma replay_apps_m : forall k s i b gfe ni lt si pre ins rest,
-  keys_lt s pre -> gfe <= s -> 0 < s -> s + Z.of_nat k <= I64MAX ->
-  replay_loop cfgB (rows_app_m s i k ++ rest) s gfe (W 10 2 ni b 0 lt true (s - 1) si pre ins)
+Lemma replay_apps_m : forall k s i gfe ni no lt so si rows ins rest,
+  gfe <= s -> 0 < s -> s + Z.of_nat k <= I64MAX ->
+  replay_loop cfgB (rows_app_m s i k ++ rest) s gfe (W 10 2 ni no 0 lt true so si rows ins)
   = prepend (map Wire (frames_pd_m s i k))
-      (replay_loop cfgB rest (s + Z.of_nat k) gfe
-         (W 10 2 ni b 0 lt true (s + Z.of_nat k - 1) si (pre ++ rows_pd_m s i k) ins)).
+      (replay_loop cfgB rest (s + Z.of_nat k) gfe (W 10 2 ni no 0 lt true so si rows ins)).
 Proof.
-  induction k as [|k IH]; intros * K G B1 B2.
-  - cbn. rewrite prepend_nil, app_nil_r. replace (s + 0) with s by lia. reflexivity.
-  - unfold rows_app_m, rows_pd_m, frames_pd_m. cbn [gen app map].
-    fold (rows_app_m (s + 1) (i + 1) k). fold (rows_pd_m (s + 1) (i + 1) k). fold (frames_pd_m (s + 1) (i + 1) k).
+  induction k as [|k IH]; intros * G B1 B2.
+  - cbn. rewrite prepend_nil. replace (s + 0) with s by lia. reflexivity.
+  - unfold rows_app_m, frames_pd_m. cbn [gen app map].
+    fold (rows_app_m (s + 1) (i + 1) k). fold (frames_pd_m (s + 1) (i + 1) k).
     remember (rows_app_m (s + 1) (i + 1) k ++ rest) as tl eqn:Etl.
-    pose proof (has_key_lt _ _ K) as HK. unfold W.
-    timeout 100 (ev_with ltac:(rewrite ?HK)).
+    unfold W.
+    timeout 100 (ev_with idtac).
     subst tl.
-    assert (P1 : keys_lt (s + 1) (pre ++ [(s, wpd cfgB s i)])).
-    { apply keys_lt_app; [eapply keys_lt_weaken; [exact K|lia]|]. repeat constructor. cbn. lia. }
-    specialize (IH (s + 1) (i + 1) b gfe ni lt si _ ins rest P1 ltac:(lia) ltac:(lia) ltac:(lia)).
-    replace (s + 1 - 1) with s in IH by lia.
+    specialize (IH (s + 1) (i + 1) gfe ni no lt so si rows ins rest ltac:(lia) ltac:(lia) ltac:(lia)).
     replace (s + 1 + Z.of_nat k) with (s + Z.of_nat (S k)) in IH by lia.
-    rewrite <- app_assoc in IH. cbn [app] in IH.
     lazymatch type of IH with
     | _ = ?rhs =>
         match goal with
@@ -1008,39 +984,25 @@ Proof.
 Qed.
 
 Lemma recv_resend_request_m : forall ni lt si pre ins b i k L,
-  all_lt ni ins -> keys_lt b pre -> 0 < ni < I64MAX -> 0 < b -> L = b + Z.of_nat k -> L < I64MAX ->
+  all_lt ni ins -> keys_lt b pre -> 0 < ni < I64MAX -> 0 < b -> L = b + Z.of_nat k -> L < I64MAX -> si = ni - 1 ->
   process_message cfgB (recv_of cfgB (wrr cfgA ni b)) NOW0
     (W 17 2 ni (L + 1) 0 lt true L si (pre ++ rows_app_m b i k ++ [(L, wlogon cfgB L)]) ins)
   = mkR (inl tt)
-        (W 17 2 (ni + 1) (L + 1) 0 NOW0 true L ni (pre ++ rows_pd_m b i k ++ [(L, wgf cfgB L (L + 1))]) (ins ++ [ni]))
+        (W 17 2 (ni + 1) (L + 1) 0 NOW0 true L ni (pre ++ rows_app_m b i k ++ [(L, wlogon cfgB L)]) (ins ++ [ni]))
         ([State 10] ++ map Wire (frames_pd_m b i k) ++ [Wire (wgf cfgB L (L + 1)); State 17]).
 Proof.
-  intros * K1 K2 B1 B2 EL B3. unfold W, process_message, validate_integrity.
+  intros * K1 K2 B1 B2 EL B3 ->. unfold W, process_message, validate_integrity.
   pose proof (existsb_lt _ _ K1) as HK1.
   timeout 100 (ev_with ltac:(rewrite ?HK1)).
   match goal with |- context [sort_rows (filter ?f ?l)] =>
     replace (sort_rows (filter f l)) with (rows_app_m b i k ++ [(L, wlogon cfgB L)])
       by (symmetry; apply recover_range; [exact K2 | lia | lia]) end.
-  match goal with |- context [filter ?f (pre ++ ?post)] =>
-    replace (filter f (pre ++ post)) with pre end.
-  2:{ symmetry. apply truncate_at. exact K2. apply Forall_app. split. apply ge_gen. lia. repeat constructor. cbn. lia. }
-  rewrite (filter_ins_lt _ _ K1) by lia.
   match goal with |- context [replay_loop ?c ?l ?a ?g ?w] =>
     replace (replay_loop c l a g w)
       with (prepend (map Wire (frames_pd_m b i k))
-              (replay_loop cfgB [(L, wlogon cfgB L)] (b + Z.of_nat k) b
-                 (W 10 2 ni b 0 lt true (b + Z.of_nat k - 1) (ni - 1) (pre ++ rows_pd_m b i k) ins)))
-      by (symmetry; apply replay_apps_m; [exact K2 | lia | lia | unfold I64MAX; lia]) end.
-  unfold W.
+              (replay_loop cfgB [(L, wlogon cfgB L)] (b + Z.of_nat k) b w))
+      by (symmetry; apply replay_apps_m; [lia | lia | unfold I64MAX; lia]) end.
   timeout 100 (ev_with ltac:(rewrite ?HK1)).
-  match goal with |- context [has_key ?x (pre ++ ?l)] =>
-    replace (has_key x (pre ++ l)) with false
-      by (symmetry; apply has_key_lt; apply keys_lt_app; [eapply keys_lt_weaken; [exact K2|lia]|apply keys_lt_gen; lia]) end.
-  timeout 100 (ev_with ltac:(rewrite ?(filter_ins_lt _ _ K1) by lia; rewrite ?HK1)).
-  match goal with |- context [filter ?f ((pre ++ ?l) ++ ?m)] =>
-    replace (filter f ((pre ++ l) ++ m)) with ((pre ++ l) ++ m)
-      by (symmetry; apply keep_all; repeat apply keys_lt_app;
-          [eapply keys_lt_weaken; [exact K2|lia] | apply keys_lt_gen; lia | repeat constructor; cbn; lia]) end.
   subst L. fin.
 Qed.
 
@@ -1217,7 +1179,7 @@ Definition net_final_m (d k : nat) : net :=
   mkNet (W 17 1 (3 + n) 4 0 NOW0 true 3 (2 + n) [LA1; (2, wlogon cfgA 2); (3, wrr cfgA 3 b)]
            (((1 :: nums 2 d) ++ nums b (S k)) ++ [2 + n]))
         (W 17 2 4 (3 + n) 0 NOW0 true (2 + n) 3
-           ((LB1 :: rows_app_m 2 1 d) ++ rows_pd_m b (1 + Z.of_nat d) (S k) ++ [(2 + n, wgf cfgB (2 + n) (3 + n))]) [1; 2; 3])
+           ((LB1 :: rows_app_m 2 1 d) ++ rows_app_m b (1 + Z.of_nat d) (S k) ++ [(2 + n, wlogon cfgB (2 + n))]) [1; 2; 3])
         [] [] (map Some (texts 1 d) ++ map Some (texts (1 + Z.of_nat d) (S k))) [] [] (texts 1 (d + S k)) (1 + n).
 
 Lemma recovery_some_m : forall d k f, Z.of_nat (d + S k) + 3 <= I64MAX ->
@@ -1249,7 +1211,7 @@ Proof.
   rewrite (recv_resend_request_m (2 + 1) NOW0 2 (LB1 :: rows_app_m 2 1 d) [1; 2] b (1 + Z.of_nat d) (S k) (2 + n));
     [ | repeat constructor; lia
       | constructor; [unfold LB1; cbn [fst]; unfold b; lia | apply keys_lt_gen; unfold b; lia]
-      | unfold I64MAX; lia | unfold b; lia | unfold b; lia | unfold I64MAX in *; lia ].
+      | unfold I64MAX; lia | unfold b; lia | unfold b; lia | unfold I64MAX in *; lia | lia ].
   nopen. refold. rewrite wires_app, apps_app, wires_map_wire, apps_map_wire. nopen.
   (* A: the k + 1 retransmissions *)
   change (S (k + S f)) with (S k + S f)%nat.
